@@ -7,56 +7,52 @@ Import ListNotations.
 Open Scope Z_scope.
 
 (* ======== sequential cache ================================================== *)
-(* The full statement -- for EVERY history with a monotone clock the cache answers exactly
-   as the abstract specification, holds at most maxEntries-1 entries and raises nothing but
-   the documented KeyError of a failed lookup -- is false of SessionCache: *)
-Definition cache_refines_spec_statement : Prop := forall n maxAge h,
+(* For EVERY history with a monotone clock (repeated IDs included), every maxEntries >= 1 and every
+   maxAge: the cache answers exactly as the abstract log specification ("the session last stored
+   under the ID iff younger than maxAge, still valid, and fewer than maxEntries-1 stores happened
+   after it"), holds at most maxEntries-1 entries, and raises nothing but the documented KeyError
+   of a failed lookup.
+   History of these statements: before tlslite-ng commit 7684882 ("SessionCache must not drop a
+   live entry when a session ID is stored twice") they were provable only for pairwise distinct
+   stored IDs (cache_*_partial) and refuted in general (cache_*_refuted, witnesses dup_history and
+   leak_history, now regression cases in Proofs/C18_CacheWit.v). *)
+Theorem cache_refines_spec : forall n maxAge h,
   1 <= n -> monotone h -> outcomes n maxAge h = spec_outcomes n maxAge h.
-Definition cache_size_bound_statement : Prop := forall n maxAge h,
+Proof. exact cache_refines_spec_all. Qed.
+
+Theorem cache_size_bound : forall n maxAge h,
   1 <= n -> monotone h -> zlen (c_dict (final_cache n maxAge h)) <= n - 1.
-Definition cache_no_internal_error_statement : Prop := forall n maxAge h,
+Proof. exact cache_size_bound_all. Qed.
+
+Theorem cache_no_internal_error : forall n maxAge h,
   1 <= n -> monotone h -> all_documented h (outcomes n maxAge h) = true.
+Proof. exact cache_no_internal_error_all. Qed.
 
-Theorem cache_refines_spec_refuted : exists n maxAge h,
-  1 <= n /\ monotone h /\ outcomes n maxAge h <> spec_outcomes n maxAge h.
-Proof. exact refines_refuted. Qed.
+(* Residue: the guard 1 <= maxEntries cannot be dropped.  SessionCache(0) (accepted by the
+   constructor) raises IndexError from every store after having inserted into the dict. *)
+Theorem cache_zero_capacity_refuted : exists maxAge h,
+  monotone h /\ all_documented h (outcomes 0 maxAge h) = false /\
+  0 - 1 < zlen (c_dict (final_cache 0 maxAge h)).
+Proof. exact zero_capacity_refuted. Qed.
 
-Theorem cache_size_bound_refuted : exists n maxAge h,
-  1 <= n /\ monotone h /\ n < zlen (c_dict (final_cache n maxAge h)).
-Proof. exact size_bound_refuted. Qed.
-
-Theorem cache_no_internal_error_refuted : exists n maxAge h,
-  1 <= n /\ monotone h /\ all_documented h (outcomes n maxAge h) = false.
-Proof. exact no_internal_error_refuted. Qed.
-
-(* What holds: the same three statements for every history whose stored IDs are pairwise
-   distinct (any length, any monotone clock, any maxEntries >= 1, any maxAge). *)
-Theorem cache_refines_spec_partial : forall n maxAge h,
-  1 <= n -> monotone h -> distinct_puts h -> outcomes n maxAge h = spec_outcomes n maxAge h.
-Proof. exact cache_refines_spec_distinct. Qed.
-
-Theorem cache_size_bound_partial : forall n maxAge h,
-  1 <= n -> monotone h -> distinct_puts h -> zlen (c_dict (final_cache n maxAge h)) <= n - 1.
-Proof. exact cache_size_bound_distinct. Qed.
-
-Theorem cache_no_internal_error_partial : forall n maxAge h,
-  1 <= n -> monotone h -> distinct_puts h -> all_documented h (outcomes n maxAge h) = true.
-Proof. exact cache_no_internal_error_distinct. Qed.
+(* the former refutation witnesses now satisfy the specification *)
+Example former_witnesses_ok :
+  outcomes 3 100 dup_history = spec_outcomes 3 100 dup_history /\
+  zlen (c_dict (final_cache 2 100 leak_history)) = 1.
+Proof. split; vm_compute; reflexivity. Qed.
 
 (* a history meeting the hypotheses that exercises eviction, expiry and invalidation *)
 Definition example_history : history :=
   [(0, Put 1 10); (1, Put 2 11); (2, Get 1); (2, Put 3 12); (3, Get 1); (3, SetValid 12 false);
-   (4, Get 3); (4, SetValid 12 true); (5, Get 3); (8, Get 2); (8, Purge); (9, Put 4 13); (20, Get 4)].
+   (4, Get 3); (4, SetValid 12 true); (5, Get 3); (8, Get 2); (8, Purge); (9, Put 4 13);
+   (9, Put 4 14); (10, Get 4); (10, Put 5 15); (11, Get 4); (20, Get 4)].
 Example example_history_ok :
-  monotone example_history /\ distinct_puts example_history /\
+  monotone example_history /\
   outcomes 3 6 example_history =
   [ORet None; ORet None; ORet (Some 10); ORet None; OExc KeyError; ORet None;
-   OExc KeyError; ORet None; ORet (Some 12); OExc KeyError; ORet None; ORet None; OExc KeyError].
-Proof.
-  split; [cbn; repeat split; discriminate|]. split; [|vm_compute; reflexivity].
-  unfold distinct_puts. cbn [example_history put_ids].
-  repeat (constructor; [cbn [In]; intros H; repeat (destruct H as [H|H]; [discriminate|]); exact H|]). constructor.
-Qed.
+   OExc KeyError; ORet None; ORet (Some 12); OExc KeyError; ORet None; ORet None;
+   ORet None; ORet (Some 14); ORet None; ORet (Some 14); OExc KeyError].
+Proof. split; [cbn; repeat split; discriminate|vm_compute; reflexivity]. Qed.
 
 (* ======== concurrency: generic ============================================== *)
 (* Any number of threads, any programs that touch shared variables only between acquire and
@@ -89,15 +85,10 @@ Proof. exact well_locked_by_shape_all. Qed.
    __delitem__/__contains__/check/keys, Python_RSAKey._rawPrivateKeyOp: every access to an
    attribute that any of these methods writes is inside the class's single lock, and each
    method has at most one critical section. *)
-Definition extracted_lock_discipline_statement : Prop := all_methods_ok all_methods = true.
-
-(* false for one method: BaseDB.keys() iterates a live view of self.db after releasing the lock *)
-Theorem extracted_lock_discipline_refuted : exists m, In m all_methods /\ method_ok all_methods m = false.
-Proof. exact extracted_refuted. Qed.
-
-Theorem extracted_lock_discipline_partial : forall m,
-  In m all_methods -> is_db_keys m = false -> method_ok all_methods m = true.
-Proof. exact extracted_partial. Qed.
+Theorem extracted_lock_discipline : all_methods_ok all_methods = true.
+Proof. exact extracted_methods_ok. Qed.
+(* (Before commit d3942bb, "BaseDB.keys() must copy the key view while holding the lock", this was
+   refuted by VerifierDB.keys and held for the other eight methods only.) *)
 
 Theorem extracted_methods_complete :
   map (fun m : xmethod => let '(c, n, _) := m in (c, n)) all_methods =
@@ -136,8 +127,8 @@ Proof. exact object_serializable_all. Qed.
    sequential behaviour of a call is Model.C18_Cache.apply at the clock value the call reads
    inside its critical section (clock = previous reading + a per-call advance).  Every
    interleaving of any number of __getitem__/__setitem__ calls equals the sequential model
-   for some order of the calls.  (With advances >= 0 and pairwise distinct stored IDs that
-   sequential run is covered by cache_refines_spec_partial.) *)
+   for some order of the calls.  (With advances >= 0 that sequential run is covered by
+   serial_calls_refine_spec / cache_refines_spec.) *)
 Theorem cache_linearizable : forall (Lo V : Type) (sem : ccall -> list (step Lo V))
     (absS : store V -> world * Z) (res : Lo -> option outcome) (lo0 : Lo) (calls : list ccall),
   (forall call, In call calls -> cache_method (fst call) = Some (map (@shape_of Lo V) (sem call))) ->
@@ -154,13 +145,12 @@ Theorem cache_linearizable : forall (Lo V : Type) (sem : ccall -> list (step Lo 
 Proof. exact cache_linearizable_all. Qed.
 
 (* ... and what that sequential run returns: calls executed one after the other (`mfold`, each
-   reading a clock that never goes back) with pairwise distinct stored IDs return exactly the
-   outcomes of the abstract specification for the history they form. *)
+   reading a clock that never goes back) return exactly the outcomes of the abstract
+   specification for the history they form. *)
 Theorem serial_calls_refine_spec : forall n maxAge t0 (cs : list ccall),
   1 <= n -> Forall (fun c : ccall => 0 <= snd c) cs ->
-  NoDup (put_ids (map (fun c : ccall => (0, fst c)) cs)) ->
   snd (mfold (init_world n maxAge, t0) cs) = spec_outcomes n maxAge (hist_of t0 cs) /\
-  monotone (hist_of t0 cs) /\ distinct_puts (hist_of t0 cs).
+  monotone (hist_of t0 cs).
 Proof. exact serial_calls_refine_spec_all. Qed.
 
 (* the two hypotheses are satisfiable for every list of get/put calls: a step program with exactly
